@@ -1,4 +1,5 @@
 import ButlerModel.Props.C02
+import ButlerModel.Model.Mexists
 /-! # C10 — removal is complete and precise; existence reports tell the truth -/
 namespace C10
 open Registry C02
@@ -113,3 +114,231 @@ theorem extDelete_flags (r : Repo) (d d' : Nat) :
   · simp [h]
 
 end C10
+
+/-! # `mexists`: many datasets, shared and multiple artifacts -/
+namespace C10.Mexists
+open _root_.Mexists
+
+theorem inner_fold_other (ar : Bool) (v : Bool) : ∀ (ds : List Nat) (acc : Nat → Option Bool) (d : Nat), d ∉ ds →
+    (ds.foldl (inner ar v) acc) d = acc d
+  | [], _, _, _ => rfl
+  | x :: xs, acc, d, h => by
+    simp only [List.foldl_cons]
+    rw [inner_fold_other ar v xs _ d (fun hm => h (List.mem_cons_of_mem _ hm))]
+    have : d ≠ x := fun e => h (e ▸ List.mem_cons_self ..)
+    simp [inner, upd, this]
+
+theorem inner_fold_mem (ar : Bool) (v : Bool) : ∀ (ds : List Nat) (acc : Nat → Option Bool) (d : Nat), d ∈ ds →
+    (ds.foldl (inner ar v) acc) d = some (match acc d with | some prev => comb ar prev v | none => v)
+  | x :: xs, acc, d, h => by
+    simp only [List.foldl_cons]
+    by_cases hx : d = x
+    · subst hx
+      by_cases hm : d ∈ xs
+      · rw [inner_fold_mem ar v xs _ d hm]
+        simp only [inner, upd, ↓reduceIte]
+        cases acc d with
+        | none => cases ar <;> cases v <;> simp [comb]
+        | some p => cases ar <;> cases v <;> cases p <;> simp [comb]
+      · rw [inner_fold_other ar v xs _ d hm]
+        simp only [inner, upd, ↓reduceIte]
+        cases acc d <;> rfl
+    · have hm : d ∈ xs := by
+        rcases List.mem_cons.mp h with h | h
+        · exact absurd h hx
+        · exact h
+      rw [inner_fold_mem ar v xs _ d hm]
+      simp [inner, upd, hx]
+
+
+def foldComb (ar : Bool) (o : Option Bool) (vs : List Bool) : Option Bool :=
+  vs.foldl (fun o v => some (match o with | some p => comb ar p v | none => v)) o
+
+theorem outer_fold (i : In) (ar : Bool) (d : Nat) : ∀ (K : List Nat) (acc : Nat → Option Bool),
+    (K.foldl (fun acc u => (locationMap i u).foldl (inner ar (val i u)) acc) acc) d
+      = foldComb ar (acc d) ((K.filter fun u => (locationMap i u).contains d).map (val i))
+  | [], _ => rfl
+  | u :: K, acc => by
+    simp only [List.foldl_cons]
+    rw [outer_fold i ar d K]
+    by_cases h : d ∈ locationMap i u
+    · have hc : (locationMap i u).contains d = true := by simpa using h
+      simp only [List.filter_cons, hc, ↓reduceIte, List.map_cons, foldComb, List.foldl_cons]
+      rw [inner_fold_mem ar (val i u) _ acc d h]
+    · have hc : (locationMap i u).contains d = false := by simpa using h
+      simp only [List.filter_cons, hc, Bool.false_eq_true, ↓reduceIte]
+      rw [inner_fold_other ar (val i u) _ acc d h]
+
+theorem foldComb_all : ∀ (vs : List Bool) (p : Bool), foldComb true (some p) vs = some (p && vs.all id)
+  | [], p => by simp [foldComb]
+  | v :: vs, p => by
+    have := foldComb_all vs (p && v)
+    simp only [foldComb, List.foldl_cons, comb, ↓reduceIte, List.all_cons, id] at this ⊢
+    rw [this, Bool.and_assoc]
+
+theorem foldComb_any : ∀ (vs : List Bool) (p : Bool), foldComb false (some p) vs = some (p || vs.any id)
+  | [], p => by simp [foldComb]
+  | v :: vs, p => by
+    have := foldComb_any vs (p || v)
+    simp only [foldComb, List.foldl_cons, comb, Bool.false_eq_true, ↓reduceIte, List.any_cons, id] at this ⊢
+    rw [this, Bool.or_assoc]
+
+theorem foldComb_none_all (vs : List Bool) (h : vs ≠ []) : foldComb true none vs = some (vs.all id) := by
+  cases vs with
+  | nil => exact absurd rfl h
+  | cons v vs =>
+    have := foldComb_all vs v
+    simp only [foldComb, List.foldl_cons, List.all_cons, id] at this ⊢
+    exact this
+
+theorem foldComb_none_any (vs : List Bool) (h : vs ≠ []) : foldComb false none vs = some (vs.any id) := by
+  cases vs with
+  | nil => exact absurd rfl h
+  | cons v vs =>
+    have := foldComb_any vs v
+    simp only [foldComb, List.foldl_cons, List.any_cons, id] at this ⊢
+    exact this
+
+/-- datasets are the keys of a dictionary -/
+def DistinctKeys (i : In) : Prop := i.records.Pairwise fun a b => a.1 ≠ b.1
+
+theorem mem_pairs (i : In) (d u : Nat) : (d, u) ∈ pairs i ↔ ∃ us, (d, us) ∈ i.records ∧ u ∈ us := by
+  simp only [pairs, List.mem_flatMap, List.mem_map, Prod.mk.injEq]
+  constructor
+  · rintro ⟨⟨d', us⟩, hr, u', hu, rfl, rfl⟩; exact ⟨us, hr, hu⟩
+  · rintro ⟨us, hr, hu⟩; exact ⟨(d, us), hr, u, hu, rfl, rfl⟩
+
+theorem mem_locationMap (i : In) (d u : Nat) : d ∈ locationMap i u ↔ (d, u) ∈ pairs i := by
+  simp only [locationMap, List.mem_map, List.mem_filter, beq_iff_eq]
+  constructor
+  · rintro ⟨⟨d', u'⟩, ⟨hp, hu⟩, rfl⟩; simp only at hu; subst hu; exact hp
+  · intro h; exact ⟨(d, u), ⟨h, rfl⟩, rfl⟩
+
+theorem unique_record (i : In) (hd : DistinctKeys i) (d : Nat) (us us' : List Nat) (h : (d, us) ∈ i.records) (h' : (d, us') ∈ i.records) : us = us' := by
+  unfold DistinctKeys at hd
+  generalize i.records = l at *
+  induction hd with
+  | nil => simp at h
+  | cons hx _ ih =>
+    simp only [List.mem_cons] at h h'
+    rcases h with h | h <;> rcases h' with h' | h'
+    · have := h.trans h'.symm; injection this
+    · subst h; exact absurd rfl (hx (d, us') h')
+    · subst h'; exact absurd rfl (hx (d, us) h)
+    · exact ih h h'
+
+theorem all_filter_set (K us : List Nat) (f : Nat → Bool) (hsub : ∀ u ∈ us, u ∈ K) :
+    ((K.filter fun u => us.contains u).map f).all id = us.all f := by
+  rw [Bool.eq_iff_iff]
+  simp only [List.all_eq_true, List.mem_map, List.mem_filter, List.contains_eq_mem, decide_eq_true_eq, id]
+  constructor
+  · intro h u hu; exact h (f u) ⟨u, ⟨hsub u hu, hu⟩, rfl⟩
+  · rintro h b ⟨u, ⟨_, hu⟩, rfl⟩; exact h u hu
+
+theorem any_filter_set (K us : List Nat) (f : Nat → Bool) (hsub : ∀ u ∈ us, u ∈ K) :
+    ((K.filter fun u => us.contains u).map f).any id = us.any f := by
+  rw [Bool.eq_iff_iff]
+  simp only [List.any_eq_true, List.mem_map, List.mem_filter, List.contains_eq_mem, decide_eq_true_eq, id]
+  constructor
+  · rintro ⟨b, ⟨u, ⟨_, hu⟩, rfl⟩, hb⟩; exact ⟨u, hu, hb⟩
+  · rintro ⟨u, hu, hb⟩; exact ⟨f u, ⟨u, ⟨hsub u hu, hu⟩, rfl⟩, hb⟩
+
+/-- **Every dataset with records gets its answer, and the right one**: all (or any) of its artifacts
+exist — however many other datasets share those artifacts. -/
+theorem process_correct (i : In) (hd : DistinctKeys i) (ar : Bool) (d : Nat) (us : List Nat) (hr : (d, us) ∈ i.records) (hne : us ≠ []) :
+    process i ar d = some (if ar then us.all (val i) else us.any (val i)) := by
+  unfold process
+  rw [outer_fold]
+  have hfilter : (keys i).filter (fun u => (locationMap i u).contains d) = (keys i).filter (fun u => us.contains u) := by
+    apply List.filter_congr
+    intro u _
+    rw [Bool.eq_iff_iff]
+    simp only [List.contains_eq_mem, decide_eq_true_eq, mem_locationMap, mem_pairs]
+    constructor
+    · rintro ⟨us', hr', hu⟩; rw [unique_record i hd d us us' hr hr']; exact hu
+    · intro hu; exact ⟨us, hr, hu⟩
+  rw [hfilter]
+  have hsub : ∀ u ∈ us, u ∈ keys i := by
+    intro u hu
+    simp only [keys, List.mem_eraseDups, List.mem_map]
+    exact ⟨(d, u), (mem_pairs i d u).mpr ⟨us, hr, hu⟩, rfl⟩
+  have hne' : ((keys i).filter fun u => us.contains u).map (val i) ≠ [] := by
+    obtain ⟨u, hu⟩ := List.exists_mem_of_ne_nil us hne
+    intro h
+    have : val i u ∈ ((keys i).filter fun u => us.contains u).map (val i) :=
+      List.mem_map.mpr ⟨u, List.mem_filter.mpr ⟨hsub u hu, by simpa using hu⟩, rfl⟩
+    rw [h] at this
+    simp at this
+  cases ar with
+  | true => simp only [↓reduceIte]; rw [foldComb_none_all _ hne', all_filter_set _ _ _ hsub]
+  | false => simp only [Bool.false_eq_true, ↓reduceIte]; rw [foldComb_none_any _ hne', any_filter_set _ _ _ hsub]
+
+/-- a dataset without records is not in the result (the caller then treats it as unknown) -/
+theorem process_unknown (i : In) (ar : Bool) (d : Nat) (h : ∀ us, (d, us) ∈ i.records → us = []) : process i ar d = none := by
+  unfold process
+  rw [outer_fold]
+  have : (keys i).filter (fun u => (locationMap i u).contains d) = [] := by
+    rw [List.filter_eq_nil_iff]
+    intro u _
+    simp only [List.contains_eq_mem, decide_eq_true_eq, mem_locationMap, mem_pairs]
+    rintro ⟨us, hr, hu⟩
+    rw [h us hr] at hu
+    simp at hu
+  rw [this]
+  rfl
+
+
+/-! ## what the value of a URI is -/
+
+/-- a URI some dataset needs checked (no cache hit for it) gets the answer already known, else the
+file system's -/
+theorem val_checked (i : In) (d u : Nat) (hp : (d, u) ∈ pairs i) (hn : proxied i (d, u) = false) :
+    val i u = (match i.known u with | some b => b | none => i.fs u) := by
+  have : (toCheck i).contains u = true := by
+    simp only [toCheck, List.contains_eq_mem, List.mem_map, List.mem_filter, decide_eq_true_eq]
+    exact ⟨(d, u), ⟨hp, by simp [hn]⟩, rfl⟩
+  unfold val
+  rw [if_pos this]
+  cases i.known u <;> rfl
+
+/-- without a local cache every URI is really checked -/
+theorem val_no_cache (i : In) (hc : i.cacheNonEmpty = false) (d u : Nat) (hp : (d, u) ∈ pairs i) :
+    val i u = (match i.known u with | some b => b | none => i.fs u) :=
+  val_checked i d u hp (by simp [proxied, hc])
+
+/-- **`mexists` tells the truth** (no local cache, nothing pre-answered): a dataset exists exactly
+when the records know it and every one of its artifacts is on the file system. -/
+theorem mexists_truth (i : In) (hd : DistinctKeys i) (hc : i.cacheNonEmpty = false) (hk : ∀ u, i.known u = none)
+    (d : Nat) (us : List Nat) (hr : (d, us) ∈ i.records) (hne : us ≠ []) :
+    mexists i d = us.all i.fs := by
+  unfold mexists
+  rw [process_correct i hd true d us hr hne]
+  simp only [↓reduceIte, Option.getD_some]
+  rw [Bool.eq_iff_iff]
+  simp only [List.all_eq_true]
+  constructor
+  · intro h u hu
+    have := h u hu
+    rwa [val_no_cache i hc d u ((mem_pairs i d u).mpr ⟨us, hr, hu⟩), hk u] at this
+  · intro h u hu
+    rw [val_no_cache i hc d u ((mem_pairs i d u).mpr ⟨us, hr, hu⟩), hk u]
+    exact h u hu
+
+theorem mexists_unknown (i : In) (d : Nat) (h : ∀ us, (d, us) ∈ i.records → us = []) : mexists i d = false := by
+  simp [mexists, process_unknown i true d h]
+
+/-- Finding C10-a, the code as it was given: of two datasets stored in one file only the one listed
+last got an answer; the other was reported as not stored although its file is there. -/
+theorem old_code_loses_sharers :
+    let i : In := { records := [(1, [7]), (2, [7])], cacheNonEmpty := false, cached := fun _ _ => false, known := fun _ => none, fs := fun _ => true }
+    processOld i true 1 = none ∧ processOld i true 2 = some true ∧ process i true 1 = some true ∧ process i true 2 = some true := by
+  decide
+
+/-- non-vacuity: shared artifacts, a dataset in two files one of which is missing, a pre-answered URI -/
+example :
+    let i : In := { records := [(1, [7]), (2, [7, 8]), (3, [9]), (4, [])], cacheNonEmpty := false, cached := fun _ _ => false,
+                    known := fun u => if u = 9 then some false else none, fs := fun u => u != 8 }
+    (process i true 1, process i true 2, process i false 2, process i true 3, process i true 4) = (some true, some false, some true, some false, none) := by
+  decide
+
+end C10.Mexists
